@@ -72,6 +72,7 @@ func calleeNames(cc *ssa.CallCommon) []string {
 
 func (fr *frame) beforeAsserts(cc *ssa.CallCommon, st *bstate, site ssa.Instruction) {
 	f := fr.f
+	fr.outerBeforeAsserts(cc, st, site)
 	if fr.spec == nil || len(fr.spec.Before) == 0 {
 		return
 	}
@@ -307,7 +308,9 @@ func (fr *frame) applyCall(cc *ssa.CallCommon, st *bstate, site ssa.Instruction,
 		spec.Used = true
 		result = fr.applySpec(spec, name, pnames, args, rt, st, site)
 	case callee != nil && len(callee.Blocks) > 0 && (spec != nil && spec.Inline || callee.Parent() != nil && f.inlineDepth < 3 || f.autoInline(callee)):
+		fr.pendingSite = site
 		result = fr.inline(callee, args, fvs, st, rt)
+		fr.pendingSite = nil
 	default:
 		// unknown callee: fresh result, heap havoc
 		f.abstr["call-unknown:"+shortCallee(name)]++
@@ -709,6 +712,7 @@ func (fr *frame) inline(fn *ssa.Function, args, fvs []Val, st *bstate, rt types.
 	}
 	nf := f.newFrame(fn, args, fvs, false, fr.depth+1)
 	nf.oldHeap = st.heap
+	nf.parent, nf.parentSite = fr, fr.pendingSite
 	entry := &bstate{reach: st.reach, heap: st.heap, seg: f.newSeg(st.seg)}
 	if fn.Parent() == nil {
 		nf.boundaryInvariants(entry, fr)
@@ -2294,5 +2298,140 @@ func (fr *frame) beforeReturnAsserts(x *ssa.Return, st *bstate, vals []Val) {
 			continue
 		}
 		f.oblige(st, fmt.Sprintf("%s#before:return#%d:%s", fnShortName(fr.fn), ord, clauseLabel(ba.C)), "assert", ba.C.Tags, v, ba.C.Src, ba.C.Line)
+	}
+}
+
+// ---------------------------------------------------------------------------
+// before-call assertions whose call site was moved into a small helper.
+// A clause "before call F#n" of function A is anchored to the n-th call of F among A's own
+// instructions.  When A has fewer than n such calls left (the code around the call was
+// extracted into a helper that is inlined during verification), the n-th call of F in
+// source order *with inlinable helpers expanded in place* is used instead, and the
+// assertion is evaluated when that inner call is reached, with A's locals as they are at
+// the outer call and argK of the inner call.
+
+func inlinableStatic(fn *ssa.Function) bool {
+	if fn == nil || fn.Pkg == nil || !inModule(fn.Pkg.Pkg) || len(fn.Blocks) == 0 || fn.Parent() != nil {
+		return false
+	}
+	n := 0
+	for _, b := range fn.Blocks {
+		for _, s := range b.Succs {
+			if isBackEdge(b, s) {
+				return false
+			}
+		}
+		for _, in := range b.Instrs {
+			if _, ok := in.(*ssa.DebugRef); !ok {
+				n++
+			}
+			switch in.(type) {
+			case *ssa.Go, *ssa.Defer, *ssa.Select:
+				return false
+			}
+		}
+	}
+	return n <= 80
+}
+
+func (fr *frame) flatSites(callee string) [][]ssa.Instruction {
+	var out [][]ssa.Instruction
+	var walk func(fn *ssa.Function, prefix []ssa.Instruction, depth int)
+	walk = func(fn *ssa.Function, prefix []ssa.Instruction, depth int) {
+		var calls []ssa.Instruction
+		for _, b := range fn.Blocks {
+			for _, in := range b.Instrs {
+				if _, ok := in.(ssa.CallInstruction); ok {
+					calls = append(calls, in)
+				}
+			}
+		}
+		sort.SliceStable(calls, func(i, j int) bool { return calls[i].Pos() < calls[j].Pos() })
+		for _, in := range calls {
+			cc := in.(ssa.CallInstruction).Common()
+			match := false
+			for _, n := range calleeNames(cc) {
+				if n == callee {
+					match = true
+				}
+			}
+			path := append(append([]ssa.Instruction{}, prefix...), in)
+			if match {
+				out = append(out, path)
+				continue
+			}
+			if h := cc.StaticCallee(); h != nil && depth < 3 && fr.f.e.specFor(h) == nil && inlinableStatic(h) && !fr.f.e.knownFunction(h.String()) {
+				walk(h, path, depth+1)
+			}
+		}
+	}
+	walk(fr.fn, nil, 0)
+	return out
+}
+
+func (fr *frame) ownSiteCount(callee string) int {
+	fr.siteOrdinal(callee, nil)
+	return len(fr.siteOrd[callee])
+}
+
+func (fr *frame) outerBeforeAsserts(cc *ssa.CallCommon, st *bstate, site ssa.Instruction) {
+	f := fr.f
+	if fr.parent == nil || f.dry {
+		return
+	}
+	path := []ssa.Instruction{site}
+	child := fr
+	for a := fr.parent; a != nil; a, child = a.parent, a {
+		if child.spec != nil || child.fn.Parent() != nil || child.parentSite == nil || f.e.knownFunction(child.fn.String()) {
+			return // only helpers that are new since the contracts were written, without a contract of their own, are looked through
+		}
+		path = append([]ssa.Instruction{child.parentSite}, path...)
+		if a.spec == nil || len(a.spec.Before) == 0 {
+			continue
+		}
+		names := calleeNames(cc)
+		for _, ba := range a.spec.Before {
+			match := false
+			for _, n := range names {
+				if n == ba.Callee {
+					match = true
+				}
+			}
+			if !match || !f.e.active(ba.C.Tags) || ba.Ordinal <= a.ownSiteCount(ba.Callee) {
+				continue
+			}
+			flat := a.flatSites(ba.Callee)
+			if ba.Ordinal-1 >= len(flat) || len(flat[ba.Ordinal-1]) != len(path) {
+				continue
+			}
+			same := true
+			for i := range path {
+				if flat[ba.Ordinal-1][i] != path[i] {
+					same = false
+				}
+			}
+			if !same {
+				continue
+			}
+			ba.C.used = true
+			env := a.specEnv(st.heap, a.oldHeap, nil)
+			env.addVars(a.localEnvAtInstr(path[0], st.heap))
+			argv := map[string]Val{}
+			k := 0
+			if cc.IsInvoke() {
+				argv["arg0"] = fr.val(cc.Value)
+				k = 1
+			}
+			for i, x := range cc.Args {
+				argv[fmt.Sprintf("arg%d", i+k)] = fr.val(x)
+			}
+			env.addVars(argv)
+			v, err := env.evalBool(ba.C.E)
+			if err != nil {
+				f.fail("%s: before call %s (in helper %s): %v", ba.C.Line, ba.Callee, fr.fn.Name(), err)
+				continue
+			}
+			f.oblige(st, fmt.Sprintf("%s#before:%s#%d:%s", fnShortName(a.fn), ba.Callee, ba.Ordinal, clauseLabel(ba.C)), "assert", ba.C.Tags, v, ba.C.Src, ba.C.Line)
+		}
 	}
 }
